@@ -1,11 +1,14 @@
-// C04 correspondence runner: drives the REAL confirmation guards of the five paths and the real
-// BTC scan loop and reports whether the event's block was processed.
+// C04 correspondence runner: drives the REAL confirmation guards of the six paths and the real
+// BTC scan loop and reports which block numbers were handed to processing (HandleEvents /
+// ProcessDeposits / GetBlockHash arguments).  Heights, heads and confirmations are unbounded integers
+// in the cases; each path gets exactly the values its Go types can hold (see inDomain).
 package main
 
 import (
 	"context"
 	"errors"
 	"math/big"
+	"strings"
 	"time"
 
 	btcconfig "github.com/ChainSafe/sygma-relayer/chains/btc/config"
@@ -31,30 +34,53 @@ import (
 	"verifharness/vgen"
 )
 
+// Int is an unbounded integer of a case (JSON: a decimal number, or a decimal string).
+type Int struct{ *big.Int }
+
+func I(x int64) Int { return Int{big.NewInt(x)} }
+func (i Int) v() *big.Int {
+	if i.Int == nil {
+		return new(big.Int)
+	}
+	return new(big.Int).Set(i.Int) // always a copy: the code under test mutates big.Ints in place
+}
+func (i Int) MarshalJSON() ([]byte, error) { return []byte(i.v().String()), nil }
+func (i *Int) UnmarshalJSON(b []byte) error {
+	x, ok := new(big.Int).SetString(strings.Trim(string(b), `"`), 10)
+	if !ok {
+		return errors.New("not a decimal integer: " + string(b))
+	}
+	i.Int = x
+	return nil
+}
+
+// Domains (see coq/Model/C04.v in_domain): BTC heads are int64, Substrate finalized heads uint32, the
+// Substrate retry event height a u128; everything else is a *big.Int in the Go code.
 type Case struct {
-	Path  string  `json:"path"` // BtcScan EvmRetryTx EvmRetryMsg BtcRetryMsg SubRetryMsg SubRetryEvt | Hist
-	Head  int64   `json:"head,omitempty"`
-	Blk   int64   `json:"blk,omitempty"`
-	Conf  int64   `json:"conf"`
-	Start *int64  `json:"start,omitempty"` // Hist: nil = nil start block
+	Path  string  `json:"path"` // BtcScan EvmRetryTx EvmRetryMsg BtcRetryMsg SubRetryMsg SubRetryEvt | Hist | Seq
+	Head  Int     `json:"head"`
+	Blk   Int     `json:"blk"`
+	Conf  Int     `json:"conf"`
+	Start *Int    `json:"start,omitempty"` // Hist: nil = nil start block
 	Heads []int64 `json:"heads,omitempty"`
 	Ops   []SeqOp `json:"ops,omitempty"` // Seq: guard evaluations on long-lived, conf-sharing objects
 }
 
 type SeqOp struct {
 	Path string `json:"path"`
-	Head int64  `json:"head"`
-	Blk  int64  `json:"blk"`
+	Head Int    `json:"head"`
+	Blk  Int    `json:"blk"`
 }
 
 type Handled struct {
-	Poll  int   `json:"poll"`
-	Block int64 `json:"block"`
+	Poll  int `json:"poll"`
+	Block Int `json:"block"`
 }
 type Obs struct {
-	Handled bool      `json:"handled"`
-	Hist    []Handled `json:"hist,omitempty"`
-	Seq     []bool    `json:"seq,omitempty"`
+	// Blocks: the block numbers the code handed to processing (empty = the guard refused)
+	Blocks []Int     `json:"blocks"`
+	Hist   []Handled `json:"hist,omitempty"`
+	Seq    [][]Int   `json:"seq,omitempty"`
 }
 
 // ---- fakes -----------------------------------------------------------------------------------
@@ -66,29 +92,37 @@ func (propStore) PropStatus(s, d uint8, n uint64) (store.PropStatus, error) {
 	return store.MissingProp, nil
 }
 
-type depProc struct{ called bool }
+func cp(x *big.Int) Int {
+	if x == nil {
+		return Int{big.NewInt(-999999)} // never a legitimate argument
+	}
+	return Int{new(big.Int).Set(x)}
+}
+
+// depProc records the range handed to DepositProcessor.ProcessDeposits(start, end).
+type depProc struct{ got []Int }
 
 func (d *depProc) ProcessDeposits(a, b *big.Int) (map[uint8][]*message.Message, error) {
-	d.called = true
+	d.got = append(d.got, cp(a), cp(b))
 	return map[uint8][]*message.Message{}, nil
 }
 
-type btcDepProc struct{ called bool }
+type btcDepProc struct{ got []Int }
 
 func (d *btcDepProc) ProcessDeposits(a *big.Int) (map[uint8][]*message.Message, error) {
-	d.called = true
+	d.got = append(d.got, cp(a))
 	return map[uint8][]*message.Message{}, nil
 }
 
-type evmClient struct{ latest, rblk int64 }
+type evmClient struct{ latest, rblk *big.Int }
 
 func (c *evmClient) FetchEventLogs(ctx context.Context, a common.Address, ev string, s, e *big.Int) ([]ethTypes.Log, error) {
 	return nil, nil
 }
 func (c *evmClient) WaitAndReturnTxReceipt(h common.Hash) (*ethTypes.Receipt, error) {
-	return &ethTypes.Receipt{BlockNumber: big.NewInt(c.rblk)}, nil
+	return &ethTypes.Receipt{BlockNumber: new(big.Int).Set(c.rblk)}, nil
 }
-func (c *evmClient) LatestBlock() (*big.Int, error) { return big.NewInt(c.latest), nil }
+func (c *evmClient) LatestBlock() (*big.Int, error) { return new(big.Int).Set(c.latest), nil }
 func (c *evmClient) BlockByNumber(ctx context.Context, n *big.Int) (*ethTypes.Block, error) {
 	return nil, errors.New("none")
 }
@@ -127,7 +161,7 @@ type btcHandler struct {
 }
 
 func (h *btcHandler) HandleEvents(b *big.Int) error {
-	h.got = append(h.got, Handled{Poll: h.conn.poll, Block: b.Int64()})
+	h.got = append(h.got, Handled{Poll: h.conn.poll, Block: cp(b)})
 	return nil
 }
 
@@ -142,14 +176,15 @@ func (s *subFetcher) GetBlock(types.Hash) (*types.SignedBlock, error) {
 	return &types.SignedBlock{Block: types.Block{Header: types.Header{Number: types.BlockNumber(s.fin)}}}, nil
 }
 
+// subConn records the block numbers whose hash (and then events) the retry event handler asks for.
 type subConn struct {
 	subFetcher
-	blk       int64
-	hashAsked bool
+	blk   *big.Int
+	asked []Int
 }
 
 func (s *subConn) GetBlockHash(n uint64) (types.Hash, error) {
-	s.hashAsked = true
+	s.asked = append(s.asked, Int{new(big.Int).SetUint64(n)})
 	return types.Hash{}, nil
 }
 func (s *subConn) GetBlockEvents(types.Hash) ([]*parser.Event, error) { return nil, nil }
@@ -158,7 +193,7 @@ func (s *subConn) FetchEvents(a, b *big.Int) ([]*parser.Event, error) {
 	return []*parser.Event{{
 		Name: "SygmaBridge.Retry",
 		Fields: registry.DecodedFields{
-			&registry.DecodedField{Name: "deposit_on_block_height", Value: types.NewU128(*big.NewInt(s.blk))},
+			&registry.DecodedField{Name: "deposit_on_block_height", Value: types.NewU128(*new(big.Int).Set(s.blk))},
 			&registry.DecodedField{Name: "dest_domain_id", Value: types.NewU8(2)},
 		},
 	}}, nil
@@ -166,27 +201,44 @@ func (s *subConn) FetchEvents(a, b *big.Int) ([]*parser.Event, error) {
 
 // ---- driving the real code ---------------------------------------------------------------------
 
-func scan(start *int64, conf int64, heads []int64) []Handled {
+func i64(x Int, what string) int64 {
+	if !x.v().IsInt64() {
+		panic("generator bug: " + what + " outside int64: " + x.v().String())
+	}
+	return x.v().Int64()
+}
+func u32(x Int, what string) uint32 {
+	if !x.v().IsUint64() || x.v().Uint64() >= 1<<32 {
+		panic("generator bug: " + what + " outside uint32: " + x.v().String())
+	}
+	return uint32(x.v().Uint64())
+}
+
+func newBtcListener(conf *big.Int) (*btclistener.BtcListener, *btcConn, *btcHandler, *btcconfig.BtcConfig) {
 	conn := &btcConn{}
 	h := &btcHandler{conn: conn}
 	id := uint8(1)
 	cfg := &btcconfig.BtcConfig{
 		GeneralChainConfig: chain.GeneralChainConfig{Id: &id},
 		BlockRetryInterval: 0,
-		BlockConfirmations: big.NewInt(conf),
+		BlockConfirmations: conf,
 	}
-	l := btclistener.NewBtcListener(conn, []btclistener.EventHandler{h}, cfg, nopStore{})
+	return btclistener.NewBtcListener(conn, []btclistener.EventHandler{h}, cfg, nopStore{}), conn, h, cfg
+}
+
+func scan(start *Int, conf Int, heads []int64) []Handled {
+	l, conn, h, _ := newBtcListener(conf.v())
 	return scanWith(l, conn, h, start, heads)
 }
 
 // scanWith runs the (possibly long-lived) listener over one script of heads.
-func scanWith(l *btclistener.BtcListener, conn *btcConn, h *btcHandler, start *int64, heads []int64) []Handled {
+func scanWith(l *btclistener.BtcListener, conn *btcConn, h *btcHandler, start *Int, heads []int64) []Handled {
 	ctx, cancel := context.WithCancel(context.Background())
 	conn.heads, conn.next, conn.poll, conn.cancel = heads, 0, 0, cancel
 	h.got = nil
 	var sb *big.Int
 	if start != nil {
-		sb = big.NewInt(*start)
+		sb = start.v()
 	}
 	done := make(chan struct{})
 	go func() { l.ListenToEvents(ctx, sb); close(done) }()
@@ -199,47 +251,67 @@ func scanWith(l *btclistener.BtcListener, conn *btcConn, h *btcHandler, start *i
 	return h.got
 }
 
-func run(c Case) Obs {
-	msg := func() *message.Message {
-		return &message.Message{Source: 1, Destination: 2, Data: retry.RetryMessageData{
-			SourceDomainID: 1, DestinationDomainID: 2, BlockHeight: big.NewInt(c.Blk), ResourceID: [32]byte{1}}}
+func blocksOf(hs []Handled) []Int {
+	out := []Int{}
+	for _, h := range hs {
+		out = append(out, h.Block)
 	}
+	return out
+}
+
+func nonNil(x []Int) []Int {
+	if x == nil {
+		return []Int{}
+	}
+	return x
+}
+
+func retryMsg(blk Int) *message.Message {
+	return &message.Message{Source: 1, Destination: 2, Data: retry.RetryMessageData{
+		SourceDomainID: 1, DestinationDomainID: 2, BlockHeight: blk.v(), ResourceID: [32]byte{1}}}
+}
+
+func run(c Case) Obs {
 	ch := make(chan []*message.Message, 4)
 	switch c.Path {
 	case "BtcScan":
 		st := c.Blk
-		got := scan(&st, c.Conf, []int64{c.Head})
-		return Obs{Handled: len(got) == 1 && got[0].Block == c.Blk}
+		got := scan(&st, c.Conf, []int64{i64(c.Head, "BTC head")})
+		return Obs{Blocks: blocksOf(got)}
 	case "Hist":
 		got := scan(c.Start, c.Conf, c.Heads)
-		return Obs{Handled: len(got) > 0, Hist: got}
+		return Obs{Blocks: blocksOf(got), Hist: got}
 	case "Seq":
-		return Obs{Seq: runSeq(c)}
+		return Obs{Blocks: []Int{}, Seq: runSeq(c)}
 	case "EvmRetryTx":
-		l := evmevents.NewListener(&evmClient{latest: c.Head, rblk: c.Blk})
-		_, err := l.FetchRetryDepositEvents(evmevents.RetryV1Event{TxHash: "0x01"}, common.Address{}, big.NewInt(c.Conf))
-		return Obs{Handled: err == nil}
+		l := evmevents.NewListener(&evmClient{latest: c.Head.v(), rblk: c.Blk.v()})
+		_, err := l.FetchRetryDepositEvents(evmevents.RetryV1Event{TxHash: "0x01"}, common.Address{}, c.Conf.v())
+		if err == nil {
+			// the deposits returned are those of the receipt's own block
+			return Obs{Blocks: []Int{{c.Blk.v()}}}
+		}
+		return Obs{Blocks: []Int{}}
 	case "EvmRetryMsg":
 		dp := &depProc{}
-		h := evmexec.NewRetryMessageHandler(dp, &evmClient{latest: c.Head}, propStore{}, big.NewInt(c.Conf), ch)
-		_, _ = h.HandleMessage(msg())
-		return Obs{Handled: dp.called}
+		h := evmexec.NewRetryMessageHandler(dp, &evmClient{latest: c.Head.v()}, propStore{}, c.Conf.v(), ch)
+		_, _ = h.HandleMessage(retryMsg(c.Blk))
+		return Obs{Blocks: nonNil(dp.got)}
 	case "BtcRetryMsg":
 		dp := &btcDepProc{}
-		conn := &btcConn{heads: []int64{c.Head}}
-		h := btcexec.NewRetryMessageHandler(dp, conn, big.NewInt(c.Conf), propStore{}, ch)
-		_, _ = h.HandleMessage(msg())
-		return Obs{Handled: dp.called}
+		conn := &btcConn{heads: []int64{i64(c.Head, "BTC head")}}
+		h := btcexec.NewRetryMessageHandler(dp, conn, c.Conf.v(), propStore{}, ch)
+		_, _ = h.HandleMessage(retryMsg(c.Blk))
+		return Obs{Blocks: nonNil(dp.got)}
 	case "SubRetryMsg":
 		dp := &depProc{}
-		h := subexec.NewRetryMessageHandler(dp, &subFetcher{fin: uint32(c.Head)}, propStore{}, ch)
-		_, _ = h.HandleMessage(msg())
-		return Obs{Handled: dp.called}
+		h := subexec.NewRetryMessageHandler(dp, &subFetcher{fin: u32(c.Head, "finalized head")}, propStore{}, ch)
+		_, _ = h.HandleMessage(retryMsg(c.Blk))
+		return Obs{Blocks: nonNil(dp.got)}
 	case "SubRetryEvt":
-		conn := &subConn{subFetcher: subFetcher{fin: uint32(c.Head)}, blk: c.Blk}
+		conn := &subConn{subFetcher: subFetcher{fin: u32(c.Head, "finalized head")}, blk: c.Blk.v()}
 		h := sublistener.NewRetryEventHandler(zerolog.Nop().With(), conn, nil, 1, ch)
 		_ = h.HandleEvents(big.NewInt(0), big.NewInt(1))
-		return Obs{Handled: conn.hashAsked}
+		return Obs{Blocks: nonNil(conn.asked)}
 	}
 	panic("unknown path " + c.Path)
 }
@@ -247,23 +319,15 @@ func run(c Case) Obs {
 // runSeq evaluates the guards on ONE set of long-lived objects wired as app.go wires them: the BTC
 // listener and the BTC retry handler share config.BlockConfirmations, the EVM retry paths share the
 // EVM config's BlockConfirmations.
-func runSeq(c Case) []bool {
+func runSeq(c Case) [][]Int {
 	ch := make(chan []*message.Message, 4*len(c.Ops)+4)
-	id := uint8(1)
-	btcCfg := &btcconfig.BtcConfig{
-		GeneralChainConfig: chain.GeneralChainConfig{Id: &id},
-		BlockRetryInterval: 0,
-		BlockConfirmations: big.NewInt(c.Conf),
-	}
-	bconn := &btcConn{}
-	bh := &btcHandler{conn: bconn}
-	bl := btclistener.NewBtcListener(bconn, []btclistener.EventHandler{bh}, btcCfg, nopStore{})
+	bl, bconn, bh, btcCfg := newBtcListener(c.Conf.v())
 	bdp := &btcDepProc{}
 	rconn := &btcConn{}
 	brh := btcexec.NewRetryMessageHandler(bdp, rconn, btcCfg.BlockConfirmations, propStore{}, ch)
 
-	evmConf := big.NewInt(c.Conf)
-	ecl := &evmClient{}
+	evmConf := c.Conf.v()
+	ecl := &evmClient{latest: new(big.Int), rblk: new(big.Int)}
 	el := evmevents.NewListener(ecl)
 	edp := &depProc{}
 	erh := evmexec.NewRetryMessageHandler(edp, ecl, propStore{}, evmConf, ch)
@@ -274,39 +338,42 @@ func runSeq(c Case) []bool {
 	sconn := &subConn{}
 	seh := sublistener.NewRetryEventHandler(zerolog.Nop().With(), sconn, nil, 1, ch)
 
-	var out []bool
+	out := [][]Int{}
 	for _, op := range c.Ops {
-		msg := &message.Message{Source: 1, Destination: 2, Data: retry.RetryMessageData{
-			SourceDomainID: 1, DestinationDomainID: 2, BlockHeight: big.NewInt(op.Blk), ResourceID: [32]byte{1}}}
+		msg := retryMsg(op.Blk)
 		switch op.Path {
 		case "BtcScan":
 			st := op.Blk
-			got := scanWith(bl, bconn, bh, &st, []int64{op.Head})
-			out = append(out, len(got) == 1 && got[0].Block == op.Blk)
+			got := scanWith(bl, bconn, bh, &st, []int64{i64(op.Head, "BTC head")})
+			out = append(out, blocksOf(got))
 		case "BtcRetryMsg":
-			bdp.called = false
-			rconn.heads, rconn.next = []int64{op.Head}, 0
+			bdp.got = nil
+			rconn.heads, rconn.next = []int64{i64(op.Head, "BTC head")}, 0
 			_, _ = brh.HandleMessage(msg)
-			out = append(out, bdp.called)
+			out = append(out, nonNil(bdp.got))
 		case "EvmRetryTx":
-			ecl.latest, ecl.rblk = op.Head, op.Blk
+			ecl.latest, ecl.rblk = op.Head.v(), op.Blk.v()
 			_, err := el.FetchRetryDepositEvents(evmevents.RetryV1Event{TxHash: "0x01"}, common.Address{}, evmConf)
-			out = append(out, err == nil)
+			if err == nil {
+				out = append(out, []Int{{op.Blk.v()}})
+			} else {
+				out = append(out, []Int{})
+			}
 		case "EvmRetryMsg":
-			edp.called = false
-			ecl.latest = op.Head
+			edp.got = nil
+			ecl.latest = op.Head.v()
 			_, _ = erh.HandleMessage(msg)
-			out = append(out, edp.called)
+			out = append(out, nonNil(edp.got))
 		case "SubRetryMsg":
-			sdp.called = false
-			sf.fin = uint32(op.Head)
+			sdp.got = nil
+			sf.fin = u32(op.Head, "finalized head")
 			_, _ = srh.HandleMessage(msg)
-			out = append(out, sdp.called)
+			out = append(out, nonNil(sdp.got))
 		case "SubRetryEvt":
-			sconn.hashAsked = false
-			sconn.fin, sconn.blk = uint32(op.Head), op.Blk
+			sconn.asked = nil
+			sconn.fin, sconn.blk = u32(op.Head, "finalized head"), op.Blk.v()
 			_ = seh.HandleEvents(big.NewInt(0), big.NewInt(1))
-			out = append(out, sconn.hashAsked)
+			out = append(out, nonNil(sconn.asked))
 		default:
 			panic("unknown path " + op.Path)
 		}
@@ -318,26 +385,185 @@ func runSeq(c Case) []bool {
 
 var singlePaths = []string{"BtcScan", "EvmRetryTx", "EvmRetryMsg", "BtcRetryMsg", "SubRetryMsg", "SubRetryEvt"}
 
+func isSub(p string) bool { return p == "SubRetryMsg" || p == "SubRetryEvt" }
+
+func pow2(k uint) *big.Int              { return new(big.Int).Lsh(big.NewInt(1), k) }
+func plus(x *big.Int, d int64) *big.Int { return new(big.Int).Add(x, big.NewInt(d)) }
+func sum(xs ...*big.Int) *big.Int {
+	s := new(big.Int)
+	for _, x := range xs {
+		s.Add(s, x)
+	}
+	return s
+}
+func modPow2(x *big.Int, k uint) *big.Int { return new(big.Int).Mod(x, pow2(k)) } // Euclidean: 0 <= result
+
+// inDomain mirrors in_domain of coq/Model/C04.v: exactly the values the Go types of the path hold.
+func inDomain(p string, head, blk *big.Int) bool {
+	switch p {
+	case "BtcScan", "BtcRetryMsg":
+		return head.IsInt64()
+	case "SubRetryMsg":
+		return head.Sign() >= 0 && head.Cmp(pow2(32)) < 0
+	case "SubRetryEvt":
+		return head.Sign() >= 0 && head.Cmp(pow2(32)) < 0 && blk.Sign() >= 0 && blk.Cmp(pow2(128)) < 0
+	}
+	return true
+}
+
+// the widths at which a Go integer conversion changes the value: int32/uint32, float64 mantissa,
+// int64/uint64, and the u128 of the pallet
+var widths = []uint{31, 32, 53, 63, 64}
+
+// randInt draws from a mixture of magnitudes: small, next to a width boundary, a multiple of a width
+// boundary plus something small (so that its low 32/64 bits are small), wide random, negative.
+func randInt(r *vgen.Rng) *big.Int {
+	switch r.Intn(10) {
+	case 0, 1, 2, 3:
+		return big.NewInt(int64(r.U64() % (1 << 30)))
+	case 4, 5:
+		return plus(pow2(vgen.Pick(r, append([]uint{127, 128}, widths...))), int64(r.Range(-50, 50)))
+	case 6, 7:
+		k := vgen.Pick(r, widths)
+		m := big.NewInt(int64(r.Range(1, 5)))
+		return plus(m.Mul(m, pow2(k)), int64(r.Intn(2000)))
+	case 8:
+		return r.BigBits(r.Range(33, 130))
+	default:
+		x := randInt(r)
+		return x.Neg(x)
+	}
+}
+
+func randConf(r *vgen.Rng) *big.Int {
+	switch r.Intn(20) {
+	case 0, 1:
+		return plus(pow2(vgen.Pick(r, widths)), int64(r.Range(-2, 2)))
+	case 2:
+		return big.NewInt(int64(-r.Range(1, 5)))
+	case 3:
+		return r.BigBits(r.Range(33, 70))
+	default:
+		return big.NewInt(int64(r.Intn(200)))
+	}
+}
+
+// coerce maps an arbitrary triple into the domain of the path by REDUCING the offending value
+// modulo the width of its Go type (so the coerced value is an alias of the original one).
+func coerce(p string, head, blk *big.Int) (*big.Int, *big.Int) {
+	switch p {
+	case "BtcScan", "BtcRetryMsg":
+		if !head.IsInt64() {
+			head = modPow2(head, 63)
+		}
+	case "SubRetryMsg", "SubRetryEvt":
+		if head.Sign() < 0 || head.Cmp(pow2(32)) >= 0 {
+			head = modPow2(head, 32)
+		}
+		if p == "SubRetryEvt" && (blk.Sign() < 0 || blk.Cmp(pow2(128)) >= 0) {
+			blk = modPow2(blk, 128)
+		}
+	}
+	return head, blk
+}
+
+// randTriple: a random (head, blk) for the path at the given confirmations, in the path's domain.
+func randTriple(r *vgen.Rng, p string, conf *big.Int) (*big.Int, *big.Int) {
+	blk := randInt(r)
+	var head *big.Int
+	switch r.Intn(4) {
+	case 0, 1: // around the acceptance boundary
+		head = plus(sum(blk, conf), int64(r.Range(-60, 60)))
+	case 2: // around the boundary a comparison on truncated values would have
+		k := vgen.Pick(r, []uint{31, 32, 63, 64})
+		head = plus(sum(modPow2(blk, k), modPow2(conf, k)), int64(r.Range(-3, 3)))
+	default:
+		head = randInt(r)
+	}
+	if isSub(p) && r.Chance(1, 2) {
+		// keep the boundary reachable although the finalized head is a uint32
+		blk = plus(modPow2(blk, 32), 0)
+		head = plus(blk, int64(r.Range(-3, 3)))
+		if r.Chance(1, 3) {
+			blk = sum(blk, new(big.Int).Mul(big.NewInt(int64(r.Range(1, 3))), pow2(vgen.Pick(r, []uint{32, 64}))))
+		}
+	}
+	return coerce(p, head, blk)
+}
+
 func gen(r *vgen.Rng, tier string) []Case {
 	var out []Case
-	confs := []int64{0, 1, 2, 3, 10, 100}
-	bases := []int64{0, 1, 10, 1000000, 1 << 31, 1 << 53}
+	emit := func(p string, head, blk, conf *big.Int) {
+		if isSub(p) {
+			conf = new(big.Int) // the Substrate guards take no confirmation depth
+		}
+		if inDomain(p, head, blk) {
+			out = append(out, Case{Path: p, Head: Int{head}, Blk: Int{blk}, Conf: Int{conf}})
+		}
+	}
+	B := func(x int64) *big.Int { return big.NewInt(x) }
+	// 1. boundary grid at ordinary heights
 	for _, p := range singlePaths {
-		sub := p == "SubRetryMsg" || p == "SubRetryEvt"
-		for _, base := range bases {
-			if sub && base > 1<<31 {
-				continue // Substrate block numbers are uint32
-			}
-			for _, conf := range confs {
-				if sub && conf != 0 {
+		for _, base := range []int64{0, 1, 10, 1000000} {
+			for _, conf := range []int64{0, 1, 2, 3, 10, 100} {
+				if isSub(p) && conf != 0 {
 					continue
 				}
 				for d := int64(-3); d <= 3; d++ {
-					head := base + conf + d
-					if head < 0 || (sub && head >= 1<<32) {
+					emit(p, B(base+conf+d), B(base), B(conf))
+				}
+			}
+		}
+	}
+	// 2. the same boundary with the height at, just below and just above every width boundary
+	//    (whatever of it the path's types can hold)
+	for _, p := range singlePaths {
+		for _, k := range append([]uint{127, 128}, widths...) {
+			for e := int64(-1); e <= 1; e++ {
+				base := plus(pow2(k), e)
+				for _, conf := range []int64{1, 10} {
+					if isSub(p) && conf != 1 {
 						continue
 					}
-					out = append(out, Case{Path: p, Head: head, Blk: base, Conf: conf})
+					for d := int64(-1); d <= 2; d++ {
+						emit(p, plus(sum(base, B(conf)), d), base, B(conf))
+					}
+				}
+			}
+		}
+	}
+	// 3. aliases: values that differ by a multiple of 2^k from a value at the boundary - a guard that
+	//    compares truncated values would decide them like the boundary value
+	for _, p := range singlePaths {
+		for _, k := range []uint{31, 32, 63, 64} {
+			for _, h0 := range []int64{100, 1000000} {
+				for d := int64(-1); d <= 2; d++ {
+					conf := B(3)
+					if isSub(p) {
+						conf = B(0)
+					}
+					lo := plus(new(big.Int).Sub(B(h0), conf), -d) // lo + conf + d == h0
+					for _, m := range []int64{1, 3} {
+						off := new(big.Int).Mul(B(m), pow2(k))
+						emit(p, B(h0), sum(lo, off), conf) // height far above the head, low bits at the boundary
+					}
+					emit(p, sum(B(h0), pow2(k)), lo, conf)               // head far above the height
+					emit(p, B(h0), lo, sum(conf, pow2(k)))               // confirmations beyond the width
+					emit(p, sum(B(h0), pow2(k)), sum(lo, pow2(k)), conf) // both beyond the width
+				}
+			}
+		}
+	}
+	// 4. signs: negative heights / heads / confirmations where the type is a signed or unbounded one
+	for _, p := range singlePaths {
+		for _, head := range []*big.Int{B(-7), B(0), B(100)} {
+			for _, blk := range []*big.Int{plus(new(big.Int).Neg(pow2(64)), -5), plus(new(big.Int).Neg(pow2(63)), -1),
+				plus(new(big.Int).Neg(pow2(31)), -1), B(-5), B(-1), B(2)} {
+				for _, conf := range []int64{-3, 0, 2} {
+					if isSub(p) && conf != 0 {
+						continue
+					}
+					emit(p, head, blk, B(conf))
 				}
 			}
 		}
@@ -348,23 +574,27 @@ func gen(r *vgen.Rng, tier string) []Case {
 	}
 	for i := 0; i < nrand; i++ {
 		p := vgen.Pick(r, singlePaths)
-		sub := p == "SubRetryMsg" || p == "SubRetryEvt"
-		blk := int64(r.U64() % (1 << 30))
-		conf := int64(r.Intn(200))
-		if sub {
-			conf = 0
+		conf := randConf(r)
+		if isSub(p) {
+			conf = new(big.Int)
 		}
-		head := blk + conf + int64(r.Range(-60, 60))
-		if head < 0 {
-			head = 0
-		}
-		out = append(out, Case{Path: p, Head: head, Blk: blk, Conf: conf})
+		head, blk := randTriple(r, p, conf)
+		emit(p, head, blk, conf)
 	}
+	// head histories for the scan loop: heads are int64 (block.Height), start block and confirmations
+	// are big.Ints; the whole walk is placed at ordinary heights or just below a width boundary
 	for i := 0; i < nhist; i++ {
 		n := r.Range(1, 40)
-		conf := int64(r.Intn(7))
-		start := int64(r.Intn(1000))
-		h := start + int64(r.Range(-2, 4))
+		conf := big.NewInt(int64(r.Intn(7)))
+		if r.Chance(1, 8) {
+			conf = plus(pow2(vgen.Pick(r, widths)), int64(r.Range(-2, 2)))
+		}
+		off := int64(0)
+		if r.Chance(1, 3) {
+			off = vgen.Pick(r, []int64{1<<31 - 20, 1<<32 - 20, 1<<53 - 20, 1<<63 - 300})
+		}
+		rel := int64(r.Intn(100))
+		h := off + rel + int64(r.Range(-2, 4))
 		if h < 0 {
 			h = 0
 		}
@@ -383,55 +613,101 @@ func gen(r *vgen.Rng, tier string) []Case {
 				}
 			}
 		}
-		c := Case{Path: "Hist", Conf: conf, Heads: heads}
+		c := Case{Path: "Hist", Conf: Int{conf}, Heads: heads}
 		if !r.Chance(1, 6) {
-			s := start
+			// start a few blocks around (first head - conf), wherever in Z that is
+			s := Int{plus(new(big.Int).Sub(big.NewInt(off+rel), conf), int64(r.Range(0, 6)))}
+			if conf.IsInt64() && conf.Int64() < 7 {
+				s = Int{big.NewInt(off + rel)}
+			}
 			c.Start = &s
 		}
 		out = append(out, c)
 	}
-	nseq := 120
+	nseq := 240
 	if tier == "thorough" {
 		nseq = 2000
 	}
 	for i := 0; i < nseq; i++ {
-		conf := int64(r.Intn(12))
-		n := r.Range(2, 8)
-		ops := make([]SeqOp, n)
-		for j := range ops {
-			p := vgen.Pick(r, singlePaths)
-			blk := int64(r.Intn(5000))
-			head := blk + conf + int64(r.Range(-3, 3))
-			if p == "SubRetryMsg" || p == "SubRetryEvt" {
-				head = blk + int64(r.Range(-2, 2))
-			}
-			if head < 0 {
-				head = 0
-			}
-			ops[j] = SeqOp{Path: p, Head: head, Blk: blk}
+		conf := big.NewInt(int64(r.Intn(12)))
+		wide := r.Chance(1, 4)
+		if wide && r.Chance(1, 3) {
+			conf = randConf(r)
 		}
-		out = append(out, Case{Path: "Seq", Conf: conf, Ops: ops})
+		n := r.Range(2, 8)
+		ops := make([]SeqOp, 0, n)
+		// one chain whose head only grows: later evaluations ask about blocks around the heads seen
+		// before (what a handler that remembers anything between calls would trip over)
+		chain := !wide && r.Chance(1, 2)
+		chainHead := big.NewInt(int64(r.Intn(5000)))
+		if chain && r.Chance(1, 4) {
+			chainHead = plus(pow2(vgen.Pick(r, []uint{31, 32, 53})), int64(r.Range(-6, 2)))
+		}
+		// mostly the handlers of one chain (they are the ones that share objects), sometimes just one
+		pool := singlePaths
+		if r.Chance(2, 3) {
+			pool = vgen.Pick(r, [][]string{{"BtcScan", "BtcRetryMsg"}, {"EvmRetryTx", "EvmRetryMsg"}, {"SubRetryMsg", "SubRetryEvt"},
+				{"BtcRetryMsg"}, {"EvmRetryMsg"}, {"EvmRetryTx"}, {"BtcScan"}})
+		}
+		for j := 0; j < n; j++ {
+			p := vgen.Pick(r, pool)
+			var head, blk *big.Int
+			if wide && r.Chance(1, 2) {
+				head, blk = randTriple(r, p, conf)
+			} else if chain {
+				chainHead = plus(chainHead, int64(r.Intn(3)))
+				head = chainHead
+				blk = plus(new(big.Int).Sub(head, conf), int64(r.Range(-3, 3)))
+				if isSub(p) {
+					blk = plus(head, int64(r.Range(-2, 2)))
+				}
+				if r.Chance(1, 4) {
+					blk = plus(head, -int64(r.Range(0, 120))) // well buried: accepted
+				}
+				if blk.Sign() < 0 {
+					blk = new(big.Int)
+				}
+			} else {
+				blk = big.NewInt(int64(r.Intn(5000)))
+				head = plus(sum(blk, conf), int64(r.Range(-3, 3)))
+				if isSub(p) {
+					head = plus(blk, int64(r.Range(-2, 2)))
+				}
+			}
+			head, blk = coerce(p, head, blk)
+			if !inDomain(p, head, blk) {
+				continue
+			}
+			ops = append(ops, SeqOp{Path: p, Head: Int{head}, Blk: Int{blk}})
+		}
+		out = append(out, Case{Path: "Seq", Conf: Int{conf}, Ops: ops})
 	}
 	return out
 }
 
-func coqPath(p string) string { return p }
+func zi(x Int) string { return vgen.ZBig(x.v()) }
 
 func coq(c Case, o Obs) string {
 	if c.Path == "Hist" {
 		st := "None"
 		if c.Start != nil {
-			st = vgen.Some(vgen.Z(*c.Start))
+			st = vgen.Some(zi(*c.Start))
 		}
-		return "Hist " + st + " " + vgen.Z(c.Conf) + " " + vgen.ListOf(c.Heads, vgen.Z) + " " +
-			vgen.ListOf(o.Hist, func(h Handled) string { return vgen.Pair(vgen.N(uint64(h.Poll)), vgen.Z(h.Block)) })
+		return "Hist " + st + " " + zi(c.Conf) + " " + vgen.ListOf(c.Heads, vgen.Z) + " " +
+			vgen.ListOf(o.Hist, func(h Handled) string { return vgen.Pair(vgen.N(uint64(h.Poll)), zi(h.Block)) })
 	}
 	if c.Path == "Seq" {
-		return "Seq " + vgen.Z(c.Conf) + " " + vgen.ListOf(c.Ops, func(o SeqOp) string {
-			return "(" + o.Path + ", " + vgen.Z(o.Head) + ", " + vgen.Z(o.Blk) + ")"
-		}) + " " + vgen.ListOf(o.Seq, vgen.Bool)
+		return "Seq " + zi(c.Conf) + " " + vgen.ListOf(c.Ops, func(o SeqOp) string {
+			return "(" + o.Path + ", " + zi(o.Head) + ", " + zi(o.Blk) + ")"
+		}) + " " + vgen.ListOf(o.Seq, func(b []Int) string { return vgen.ListOf(b, zi) })
 	}
-	return "Single " + coqPath(c.Path) + " " + vgen.Z(c.Head) + " " + vgen.Z(c.Blk) + " " + vgen.Z(c.Conf) + " " + vgen.Bool(o.Handled)
+	return "Single " + c.Path + " " + zi(c.Head) + " " + zi(c.Blk) + " " + zi(c.Conf) + " " + vgen.ListOf(o.Blocks, zi)
+}
+
+// near: head - blk - conf within 3 of the acceptance boundary
+func near(head, blk, conf *big.Int) bool {
+	d := new(big.Int).Sub(new(big.Int).Sub(head, blk), conf)
+	return d.CmpAbs(big.NewInt(3)) <= 0
 }
 
 func main() {
@@ -443,16 +719,23 @@ func main() {
 		Coq:       coq,
 		Kind:      func(c Case) string { return c.Path },
 		NonTrivial: func(c Case, o Obs) bool {
-			// non-trivial: within 3 of the acceptance boundary, or a history in which something is handled
 			if c.Path == "Hist" {
-				return o.Handled
+				return len(o.Hist) > 0
 			}
 			if c.Path == "Seq" {
 				return len(c.Ops) >= 2
 			}
-			d := c.Head - c.Blk - c.Conf
-			return d >= -3 && d <= 3
+			head, blk, conf := c.Head.v(), c.Blk.v(), c.Conf.v()
+			if near(head, blk, conf) {
+				return true
+			}
+			for _, k := range []uint{31, 32, 63, 64} {
+				if near(modPow2(head, k), modPow2(blk, k), modPow2(conf, k)) {
+					return true
+				}
+			}
+			return false
 		},
-		Rule: "boundary grid (head-blk-conf in -3..3) x conf x base height for each of the 6 guards, plus random triples, plus random head histories for the real BTC scan loop, plus random sequences of guard evaluations on long-lived handler objects that share the configured confirmation depth as app.go wires them; distinct = distinct input JSON; non-trivial = within 3 blocks of the acceptance boundary, or a history in which at least one block is handled",
+		Rule: "for each of the 6 guards: boundary grid (head-blk-conf in -3..3) x conf x base height, the same boundary with the height at 2^k-1, 2^k, 2^k+1 for k in 31,32,53,63,64,127,128, alias grid (height / head / confirmations shifted by a multiple of 2^31, 2^32, 2^63, 2^64 from a boundary value), sign grid (negative heights, heads, confirmations), random triples from a mixture of magnitudes - all restricted to exactly the values the Go types of the path can hold (BTC heads int64, Substrate finalized heads uint32, Substrate retry-event height u128, everything else unbounded big.Int); plus random head histories for the real BTC scan loop (also just below 2^31, 2^32, 2^53, 2^63 and with confirmations beyond the widths), plus random sequences of guard evaluations on long-lived handler objects that share the configured confirmation depth as app.go wires them; observed: the block numbers handed to HandleEvents / ProcessDeposits / GetBlockHash; distinct = distinct input JSON; non-trivial = within 3 blocks of the acceptance boundary (also after reducing the values modulo 2^31, 2^32, 2^63 or 2^64), or a history in which at least one block is handled",
 	})
 }
